@@ -114,6 +114,37 @@ func (P *Prog) verifyFunction(fn *ssa.Function, con *Contract) *FuncResult {
 		return res
 	}
 	fr.entrySt = st
+	// frame bookkeeping for loops: which references may be written
+	vc.topEntry = st.top
+	vc.modRefs, vc.modWhole = map[string][]Term{}, map[string]bool{}
+	if con.HasMod {
+		vc.frameOn = true
+		menv := *env
+		for _, m := range con.Modifies {
+			func() {
+				defer func() {
+					if r := recover(); r != nil {
+						if _, ok := r.(specErr); ok {
+							return
+						}
+						panic(r)
+					}
+				}()
+				t := vc.modTarget(&menv, m)
+				switch t.kind {
+				case "place":
+					if t.place.Kind == BPtr || t.place.Kind == BArr {
+						vc.modRefs[t.place.Comp] = append(vc.modRefs[t.place.Comp], t.place.Ref)
+					}
+				case "arr":
+					c := vc.arrComp(t.elem)
+					vc.modRefs[c] = append(vc.modRefs[c], t.ref)
+				case "comp":
+					vc.modWhole[t.comp] = true
+				}
+			}()
+		}
+	}
 	exit, rets := vc.runBody(fr, st)
 	// cover: some exit is reachable
 	res.Vacuity = append(res.Vacuity, &Obligation{Name: res.Name + "#vacuity.exit", Kind: "vacuity", Func: res.Name, Prefix: len(vc.out), Reach: exit.reach, Goal: tFalse, Expect: "sat", Src: "a normal return is reachable"})
